@@ -26,6 +26,7 @@ import (
 	"sort"
 	"strings"
 	"sync"
+	"sync/atomic"
 	"time"
 
 	"github.com/enfein/mieru/v3/pkg/protocol"
@@ -65,7 +66,12 @@ type Scenario struct {
 	ReadStall      time.Duration `json:"read_stall"`       // peer application starts reading this long after accepting
 	ReadPause      time.Duration `json:"read_pause"`       // pause between the peer's Read calls
 	TCPCap         int           `json:"tcp_cap"`          // bounded in-flight buffer of the closer->peer TCP direction
-	TCPRate        int           `json:"tcp_rate"`         // bytes per second of the closer->peer TCP direction (0 = unlimited)
+	StallFor       time.Duration `json:"stall_for"`        // TCP: after the first PreStall bytes have gone out, the closer's connection accepts no byte for this long (Write blocks, nothing is dropped)
+	PreStall       int           `json:"pre_stall"`        // bytes written before the stall begins
+	StallWrites    int           `json:"stall_writes"`     // Writes of StallWriteSize bytes issued after the stall has begun
+	StallWriteSize int           `json:"stall_write_size"`
+	CloseAt        time.Duration `json:"close_at"` // Close is called this long after the stall began (or when the Writes have returned, if that is later)
+	TCPRate        int           `json:"tcp_rate"` // bytes per second of the closer->peer TCP direction (0 = unlimited)
 	Seed           uint64        `json:"seed"`
 }
 
@@ -85,17 +91,18 @@ type Result struct {
 
 // Facts is what the network trace says about the closer->peer direction.
 type Facts struct {
-	NSeg            int   // sequenced segments before the close request (open request/response + data) = closeSeq
-	CloseSeq        int   // -1 if the closer's session never emitted a close request
-	SentBeforeClose int   // distinct seqs < closeSeq handed to the network before the first transmission of the close request
-	SentEver        int   // distinct seqs < closeSeq ever handed to the network
-	PayloadSent     int   // payload bytes of distinct seqs ever sent
-	CloseSent       int   // transmissions of the close request by the closer (session or underlay)
-	CloseDelivered  bool  // peer endpoint received a close request
-	Have            []int // seqs < closeSeq the peer endpoint had received before it received the first close request (sorted)
-	InOrder         int   // length of the in-order prefix of Have
-	PayloadAt       []int // cumulative payload bytes after seq i (for converting bytes read into segments)
-	MinPeerWindow   int   // UDP: smallest receive window the peer advertised before it received the close request (-1 = none seen)
+	NSeg               int   // sequenced segments before the close request (open request/response + data) = closeSeq
+	CloseSeq           int   // -1 if the closer's session never emitted a close request
+	SentBeforeClose    int   // distinct seqs < closeSeq handed to the network before the first transmission of the close request
+	SentEver           int   // distinct seqs < closeSeq ever handed to the network
+	PayloadSent        int   // payload bytes of distinct seqs ever sent
+	CloseSent          int   // transmissions of the close request by the closer (session or underlay)
+	CloseDelivered     bool  // peer endpoint received a close request
+	Have               []int // seqs < closeSeq the peer endpoint had received before it received the first close request (sorted)
+	InOrder            int   // length of the in-order prefix of Have
+	PayloadAt          []int // cumulative payload bytes after seq i (for converting bytes read into segments)
+	PayloadBeforeClose int   // TCP: payload bytes of the sequenced segments that precede the first close request on the stream
+	MinPeerWindow      int   // UDP: smallest receive window the peer advertised before it received the close request (-1 = none seen)
 }
 
 func pat(seed uint64, i int) byte { return byte(uint64(i)*131 + uint64(i>>8)*17 + seed*29 + 7) }
@@ -168,6 +175,7 @@ func runScenario(sc Scenario) Result {
 	closerIsClient := sc.Closer == "client"
 	rng := vh.NewRng(sc.Seed)
 
+	var stallUntil atomic.Int64
 	// ---- network shaping
 	if sc.Transport == "udp" {
 		var mu sync.Mutex
@@ -233,9 +241,20 @@ func runScenario(sc Scenario) Result {
 			return keep()
 		}
 	} else {
-		if sc.TCPCap > 0 || sc.TCPRate > 0 {
+		if sc.TCPCap > 0 || sc.TCPRate > 0 || sc.StallFor > 0 {
 			n.TCPPolicy = func(connID int, clientAddr, srvAddr string) (c2s, s2c *simnet.PipePolicy) {
 				pol := &simnet.PipePolicy{Cap: sc.TCPCap}
+				if sc.StallFor > 0 {
+					// a write stall (zero window, outage): the writer is held until the stall is over, every byte is delivered
+					pol.Transform = func(off int64, data []byte) []byte {
+						if until := stallUntil.Load(); until > 0 {
+							if d := time.Until(time.Unix(0, until)); d > 0 {
+								time.Sleep(d)
+							}
+						}
+						return data
+					}
+				}
 				if sc.TCPRate > 0 {
 					// a bandwidth-limited link: the writer is held for len/rate (virtual) seconds
 					pol.Transform = func(off int64, data []byte) []byte {
@@ -320,7 +339,34 @@ func runScenario(sc Scenario) Result {
 				}
 			}()
 		}
-		if sc.Writes > 0 {
+		if sc.StallFor > 0 {
+			check := func(b []byte) bool {
+				w, err := c.Write(b)
+				res.Wrote += w
+				if err != nil || w != len(b) {
+					res.WriteErr = errName(err)
+					if res.WriteErr == "" {
+						res.WriteErr = "SHORT"
+					}
+					return false
+				}
+				return true
+			}
+			if check(data[:sc.PreStall]) {
+				time.Sleep(time.Millisecond) // the output loop has handed the first bytes to the connection
+				start := time.Now()
+				stallUntil.Store(start.Add(sc.StallFor).UnixNano())
+				for i := 0; i < sc.StallWrites; i++ {
+					off := sc.PreStall + i*sc.StallWriteSize
+					if !check(data[off : off+sc.StallWriteSize]) {
+						break
+					}
+				}
+				if d := time.Until(start.Add(sc.CloseAt)); d > 0 {
+					time.Sleep(d)
+				}
+			}
+		} else if sc.Writes > 0 {
 			// many small writes, each checked: one segment per Write
 			for i := 0; i < sc.Writes; i++ {
 				w, err := c.Write(data[i*sc.WriteSize : (i+1)*sc.WriteSize])
@@ -512,6 +558,7 @@ func facts(sc Scenario, ev []simnet.Event) Facts {
 					f.SentEver++
 					if !closeSeen {
 						f.SentBeforeClose++
+						f.PayloadBeforeClose += len(s.Payload)
 						f.Have = append(f.Have, int(m.Seq)) // TCP: reliable FIFO, everything written before the close request precedes it
 					}
 				}
@@ -588,7 +635,14 @@ func signature(sc Scenario, res Result) string {
 		return "receiver-backlog-close-overtakes-queued-data-" + sc.Transport
 	}
 	if sc.Transport == "tcp" {
-		if f.PayloadSent < sc.N {
+		if sc.StallFor > 0 && f.SentBeforeClose < f.NSeg && f.PayloadBeforeClose > sc.PreStall {
+			// the output loop had taken at least one segment out of the queue after the stall began (it reached the stream
+			// before the close request), yet the close request overtook what was queued behind it: the fallback of
+			// closeWithError ran while an output was in flight (C03_tcp_close_fallback_never_overtakes_inflight)
+			return "tcp-close-fallback-overtakes-inflight-write"
+		}
+		if f.PayloadSent < sc.N || f.SentBeforeClose < f.NSeg {
+			// nothing of the last batch left before the close request: the output loop did not run during the wait
 			return "close-wait-expired-backpressure-tcp"
 		}
 		return "tcp-eof-before-queued-data-read"
@@ -643,7 +697,7 @@ func main() {
 	r.Count("close-wait-measurement")
 
 	only := os.Getenv("C03_ONLY")
-	for _, sc := range scenarios(r) {
+	for _, sc := range scenarios(r, w0) {
 		if only != "" && !strings.Contains(sc.Name, only) {
 			continue
 		}
